@@ -35,6 +35,7 @@ def norm_dict(wn):
 
 
 class C13(StoreProp):
+    p_file = 0.012      # histories that start from a model read from an INP file shipped with the package
     id = 'C13'
     quick_runs = 8000
     thorough_runs = 100000
@@ -48,7 +49,8 @@ class C13(StoreProp):
             'dictionary of the re-created model must EQUAL the original dictionary exactly after the stated normalisations (floats compared exactly), '
             'from_dict(d, append=<empty model>) must equal from_dict(d), and the history continues on the reloaded model. non-trivial = the model '
             'at a dict/JSON restart has >= 3 element kinds among {controls, sources, curves, several demands, vertices, leaks}; distinct = digest of '
-            'the executed operation sequence')
+            'the executed operation sequence. 1.2 % of the cases instead start from a model read from an INP file shipped with the package '
+            '(Net1, Net2, Net3, ky10, Net6) and apply 2-6 positional edits and restarts to it.')
     assumptions = ['models are built by valid API calls (and, after an INP restart, by the INP reader)',
                    'JSON normalisation: tuples become lists, empty pattern names are None, a junction without demands has one zero demand']
 
